@@ -1038,6 +1038,39 @@ def check_config(name, ci, fac, ns, rng, vs, stats, n_keys, ctx):
             V("%s.set_params:other-keys-changed:%s" % (sdef, key_shape(k)),
               "set_params changes keys it was not given", inp,
               {"changed_or_removed": changed[:6], "added": added[:6]}, "every other key keeps its value")
+    # ---- one call giving a replacement object AND a key below it (both orders of the keyword dictionary):
+    #      both keys are "given", so afterwards get_params must report the new object and the nested value
+    objs = [k for k in keys if is_est(adv[k]) and "__" not in k and any(below(k, k2) and not is_est(adv[k2])
+                                                                         and not isinstance(adv[k2], list) for k2 in keys)]
+    for p_key in objs[:2]:
+        subs = [k2 for k2 in keys if below(p_key, k2) and not is_est(adv[k2]) and not isinstance(adv[k2], list)
+                and isinstance(adv[k2], (int, float)) and not isinstance(adv[k2], bool)]
+        if not subs:
+            continue
+        k2 = rng.choice(subs)
+        for order in ("nested-first", "object-first"):
+            o = fac()
+            before = o.get_params(deep=True)
+            if p_key not in before or k2 not in before:
+                continue
+            new_obj = clone(before[p_key])
+            v2 = new_value(k2, before[k2], o, ns, rng)
+            kw = {k2: v2, p_key: new_obj} if order == "nested-first" else {p_key: new_obj, k2: v2}
+            inp = {"kind": "multi", "keys": list(kw), "order": order}
+            stats["evaluations"] += 1
+            stats["nontrivial"].add((name, "multi", order))
+            try:
+                o.set_params(**kw)
+                after = o.get_params(deep=True)
+            except Exception as ex:
+                V("%s.set_params:multi-key:raises" % sdef, "set_params(object, key below it) raises %s" % type(ex).__name__,
+                  inp, "%s: %s" % (type(ex).__name__, str(ex)[:120]), "both keys are set")
+                continue
+            if after.get(p_key) is not new_obj or not same(after.get(k2), v2):
+                V("%s.set_params:multi-key:object-and-nested-key" % sdef,
+                  "one set_params call giving an object and a key below it does not set both", inp,
+                  {"object_is_new": after.get(p_key) is new_obj, k2: canon(after.get(k2, "<missing>"), ns)[:60]},
+                  {"object_is_new": True, k2: canon(v2, ns)[:60]})
     # ---- clone
     for fitted in (False, True):
         o = fac()
@@ -1294,6 +1327,8 @@ def replay(ctx, item):
     kind = inp.get("kind")
     if kind == "rebind":
         check_learner_rebind(ns, vs, stats)
+    elif kind == "probe":
+        vs.extend(probe_non_normalised())
     elif kind == "transfer":
         check_transfer(name, inp["config"], inp["config2"], cfg[name], ns, vs, stats)
     elif kind == "history":
